@@ -216,6 +216,40 @@ func runC07(w *World, r *Report, tier string) {
 			idOK = fp == "Attrs.Id" || fp == "Id"
 		}
 		r.Check(idOK, "R3", k+"#id", w.ipos(regs[0]), "the pending route is not registered under the request's id", "registered under iq.Attrs.Id")
+		// a request that could not be written is not left pending
+		if sc, ok := sends[0].(*ssa.Call); ok {
+			badRB := ""
+			nFail := 0
+			isUnreg := func(in ssa.Instruction) bool {
+				cc := asCall(in)
+				if cc == nil {
+					return false
+				}
+				callee := cc.Common().StaticCallee()
+				if callee == nil {
+					return false
+				}
+				for _, a := range accs {
+					if a.kind == "delete" && a.fn == callee {
+						return true
+					}
+				}
+				return false
+			}
+			walkPaths(after(sc), nil, nil, 5000, func(path []ssa.Instruction, end pathEnd) {
+				if _, isRet := path[len(path)-1].(*ssa.Return); !isRet {
+					return
+				}
+				if !pathAsserts(path, func(c ssa.Value, truth bool) bool { return assertsNonNil(c, truth, sc) }) {
+					return
+				}
+				nFail++
+				if countOn(path, isUnreg) == 0 {
+					badRB = "when the request cannot be written its pending route stays registered: the caller got an error, but a later packet with that id is still taken for its response"
+				}
+			})
+			r.Check(badRB == "" && nFail > 0, "R3", k+"#rollback", w.ipos(sc), badRB, "failed send ⇒ the route is unregistered")
+		}
 	}
 
 	// R4: delivery sequence on the claimed path
@@ -367,6 +401,55 @@ func runC07(w *World, r *Report, tier string) {
 		})
 		ok := len(guard) > 0 && !reachable(entryLoc(a.fn), func(in ssa.Instruction) bool { return in == a.in }, nil, guard)
 		r.Check(ok, "R5", cons, w.ipos(a.in), "when a request's context ends its watcher deletes whatever entry is registered under that id — also the entry of a newer request that reuses the id, whose response is then routed to the ordinary handlers and never delivered (history: SendIQ(id=x) answered; SendIQ(id=x) again; first context expires; second response arrives)", "delete guarded by IQResultRoutes[id] == the caller's own route")
+	}
+	// a request whose context ends stops being pending: NewIQResultRoute starts a goroutine that waits for the context and
+	// removes the entry (so that a late response is routed like any other packet)
+	{
+		nir := w.Func("xmpp.(*Router).NewIQResultRoute")
+		okW := false
+		allInstrsH(nir, func(in ssa.Instruction) {
+			g, ok := in.(*ssa.Go)
+			if !ok {
+				return
+			}
+			var started *ssa.Function
+			if callee := g.Call.StaticCallee(); callee != nil {
+				started = callee
+			} else if mc, ok := g.Call.Value.(*ssa.MakeClosure); ok {
+				started, _ = mc.Fn.(*ssa.Function)
+			}
+			if started == nil {
+				return
+			}
+			waits, removes := false, false
+			allInstrsH(started, func(x ssa.Instruction) {
+				if u, ok := x.(*ssa.UnOp); ok && u.Op.String() == "<-" {
+					if cc, ok := chanOrigin(u.X).(*ssa.Call); ok && w.callKey(cc) == "context.Context.Done" {
+						waits = true
+					}
+				}
+				if sel, ok := x.(*ssa.Select); ok {
+					for _, st := range sel.States {
+						if cc, ok := chanOrigin(st.Chan).(*ssa.Call); ok && w.callKey(cc) == "context.Context.Done" {
+							waits = true
+						}
+					}
+				}
+			})
+			for _, a := range accs {
+				if a.kind == "delete" {
+					for _, hf := range withHelpers(started) {
+						if a.fn == hf {
+							removes = true
+						}
+					}
+				}
+			}
+			if waits && removes {
+				okW = true
+			}
+		})
+		r.Check(okW, "R5", "xmpp.(*Router).NewIQResultRoute#watcher", w.pos(nir.Pos()), "no goroutine waits for the request's context and unregisters the pending entry: after a timeout the entry stays for ever and a late response is delivered to a channel nobody reads instead of being routed like any other packet", "go: <-ctx.Done(); guarded delete")
 	}
 	if nWatch == 0 {
 		r.Undecided("R5", "watcher#delete", "-", "no cleanup goroutine found")
